@@ -150,9 +150,10 @@ def overflow_stream():
     """integer edge values reached by arithmetic (numerals saturate at 2^31-1, so they are built by squaring), every binary
     operator between every pair of them, as values of commands too; signs in front of empty / odd numerals after every
     place a number is read"""
-    pre = "Int P=2147483647+1; Int Q=P*P; Int MN=Q*2; Int MX=MN-1; Int M1=0-1; Int Z0=0; Int ONE=1; "
-    vals = ["MN", "MX", "Q", "M1", "Z0", "ONE", "P", "(0-MX)", "(MN+1)"]
-    out = [pre + "Print(MN) Print(MX)"]
+    # (the names must not be reserved words: P, Q, ... are commands)
+    pre = "Int Zp=2147483647+1; Int Zq=Zp*Zp; Int Zmn=Zq*2; Int Zmx=Zmn-1; Int Zm1=0-1; Int Zz0=0; Int Zone=1; "
+    vals = ["Zmn", "Zmx", "Zq", "Zm1", "Zz0", "Zone", "Zp", "(0-Zmx)", "(Zmn+1)"]
+    out = [pre + "Print(Zmn) Print(Zmx)"]
     for a in vals:
         for b in vals:
             for op in ["+", "-", "*", "/", "%", "<", "==", "&", "|"]:
